@@ -350,7 +350,10 @@ def gen_timeline_invocation(rnd, exact_only=False, allow_default_kf=False, allow
     """Returns (macro_args, twin_expr_yielding_MergedTimeline, single_twin_exprs, exact, sig)."""
     if allow_merge and rnd.random() < 0.25:
         n = rnd.choice([2, 2, 3])
-        ss = [gen_sentence(rnd, exact_only, allow_default_kf) for _ in range(n)]
+        # members of a merged list only use numbers whose macro arithmetic coincides with the documented
+        # reading: with independent timing per member there is no single (delay, cycle) to build the
+        # inexact-regime envelope from (one-ulp number parsing is covered by the single sentences)
+        ss = [gen_sentence(rnd, True, allow_default_kf) for _ in range(n)]
         # an empty member would end the bracketed list early; make sure every member has a token
         for s in ss:
             if not s["text"].strip():
